@@ -1,2 +1,123 @@
-"""Properties whose check is not a plain model-vs-implementation stream (C09, C17, C19)."""
-SPECIAL = {}
+"""Properties whose check is not a plain model-vs-implementation stream (C09, C17)."""
+import os, random, re, subprocess
+import gen, runner, props
+from gen import Profile
+
+K_TYPES = {0, 2, 4}
+
+
+def _offset_ids(line, off):
+    t = line.split(" ")
+    if t[0] in ("amod", "acond", "imod", "icond", "emod", "econd"):
+        t[1] = str(int(t[1]) + off)
+    return " ".join(t)
+
+
+def c17_pair(rng, name):
+    """(A, B): A = contexts K plus input-disjoint contexts D; B = K alone; same input script (D's inputs become noise in B)"""
+    kprof = Profile(ctx_pool=[0, 2, 4], n_ctx=(1, 2), keys=[0, 1], mask_choices=[1, 2, 3], mbtns=[0], pads=(1, 1), pad_ctx_p=1.0,
+                    input_kinds=["key"] * 5 + ["mbtn", "motion", "padbtn", "padaxis"], actions=list(range(16)),
+                    lifecycle_p=0.08, noise_keys=[4, 5], modmask_p=0.3, n_entities=(1, 2))
+    dprof = Profile(ctx_pool=[1, 3, 5], n_ctx=(1, 2), keys=[2, 3], mask_choices=[4, 8, 12], mbtns=[1], pads=(1, 1), pad_ctx_p=1.0,
+                    input_kinds=["key"] * 5 + ["mbtn", "wheel", "padbtn", "padaxis"], actions=list(range(16, 32)),
+                    modmask_p=0.3)
+    kg = gen.AppGen(rng, kprof)
+    ksc = kg.scenario(name)
+    dg = gen.AppGen(rng, dprof)
+    dcfg = [_offset_ids(l.replace(" pad 0", " pad 1"), 1000) for l in dg.config([0])]
+    dg.bound_inputs = list(dg.bound_inputs)
+    kcfg = [l for l in ksc[1:-1] if l.split()[0] in ("ctx", "act", "route", "amod", "acond", "emod", "econd", "in", "imod", "icond", "preset")]
+    kops = [l for l in ksc[1:-1] if l.split()[0] not in ("ctx", "act", "route", "amod", "acond", "emod", "econd", "in", "imod", "icond", "preset")]
+    ents = [int(l.split()[1]) for l in kops if l.startswith("spawn ")]
+    dinserts = []
+    for e in ents:
+        for c in sorted(dg.ctx_variants):
+            if rng.random() < 0.8:
+                dinserts.append(f"insert {e} {c} {rng.choice(dg.ctx_variants[c])}")
+    state = {"keys": {}, "mb": {}, "padbtn": {}}
+    opsA, opsB = ["pad+ 1"], ["pad+ 1"]
+    first = True
+    for l in kops:
+        if l == "frame":
+            noise = dg.input_changes(state, [1])
+            if first:
+                opsA += dinserts
+                first = False
+            opsA += noise
+            opsB += noise
+        opsA.append(l)
+        opsB.append(l)
+    A = [f"scenario {name}A"] + kcfg + dcfg + opsA + ["endscenario"]
+    B = [f"scenario {name}B"] + kcfg + opsB + ["endscenario"]
+    return A, B
+
+
+def k_projection(trace):
+    """what the kept contexts K can observe: their polls, deliveries, invocations and registry membership per frame, and the
+    closing deliveries of their actions between frames"""
+    out = []
+    in_frame = False
+    for l in trace:
+        t = l.split(" ")
+        k = t[0]
+        if k == "frame":
+            in_frame = True
+            out.append(l)
+        elif k == "endframe":
+            in_frame = False
+            out.append(l)
+        elif k == "panic":
+            out.append(l)
+        elif k == "dlv" and int(t[2]) < 16:
+            out.append(l)
+        elif not in_frame:
+            continue
+        elif k == "poll" and int(t[2]) in K_TYPES:
+            out.append(l)
+        elif k == "inv" and int(t[1]) < 1000:
+            out.append(l)
+        elif k == "has" and int(t[2]) in K_TYPES:
+            out.append(l)
+        elif k == "groups":
+            gs = [g for g in (t[1].split(";") if len(t) > 1 else []) if int(g.split(":")[0]) in K_TYPES]
+            out.append("groups " + ";".join(gs))
+    return out
+
+
+def c17_run(prop, cfg, seed, tier, workdir):
+    rng = random.Random(seed)
+    n = 150 if tier == "quick" else 5000
+    pairs = [c17_pair(rng, f"c17p{i}") for i in range(n)]
+    scenarios = [s for p in pairs for s in p]
+    impl, model = runner.run_pair(scenarios, workdir, "s")
+    # determinism: a second, separate run of the real crate on the same batch
+    impl2, _ = runner.run_pair(scenarios, workdir, "s2", impl_only=True)
+    mismatches, violations, outside = [], [], 0
+    nontriv = 0
+    stats = {"pairs": len(pairs), "pair_projection_lines": 0}
+    for sc in scenarios:
+        nm = sc[0].split()[1]
+        ti = runner.canonicalise(sc, impl[nm]); tm = runner.canonicalise(sc, model[nm])
+        d = runner.first_diff(ti, tm)
+        if d is not None:
+            mismatches.append((sc, d))
+        if impl[nm] != impl2[nm] and not violations:
+            violations.append(("nondeterministic-" + nm, "# two runs of the real crate on the same scenario differ\n" + "\n".join(sc) + "\n"))
+        if any(l.startswith("dlv ") for l in impl[nm]):
+            nontriv += 1
+    for A, B in pairs:
+        a, b = A[0].split()[1], B[0].split()[1]
+        pa, pb = k_projection(runner.canonicalise(A, impl[a])), k_projection(runner.canonicalise(B, impl[b]))
+        stats["pair_projection_lines"] += len(pa)
+        d = runner.first_diff(pa, pb)
+        if d is not None and len(violations) < 3:
+            violations.append((f"interference-{a}", "# the kept contexts behave differently with / without input-disjoint contexts\n"
+                               f"# first difference (index, with D, without D): {d!r}\n" + "\n".join(A) + "\n" + "\n".join(B) + "\n"))
+    return dict(scenarios=scenarios, impl=impl, model=model, mismatches=mismatches, outside=outside, evaluations=len(scenarios) * 2,
+                distinct=len(scenarios), nontrivial=nontriv, stats=stats, n_corpus=0, violations=violations,
+                extra_coverage={"pairs_compared": len(pairs), "determinism_reruns": len(scenarios)})
+
+
+SPECIAL = {
+    "C17": dict(run=c17_run, proj=props.P_ALL),
+}
